@@ -157,18 +157,17 @@ func logAddr(a uint64) int {
 	return int(a)
 }
 
+// realAddr: the model's "out of range" address (-1) stands for many concrete ones; they are used in turn (not drawn), so
+// that a handful of out-of-range operations covers them all: the extremes, and addresses whose byte offset a*4096 wraps
+// around 2^64 (or 2^63) to the offset of a block that exists.
+var oorTurn atomic.Uint64
+
 func realAddr(a int, r *rand.Rand) uint64 {
 	if a >= 0 {
 		return uint64(a)
 	}
-	switch r.IntN(3) {
-	case 0:
-		return ^uint64(0)
-	case 1:
-		return 1 << 63
-	default:
-		return (1 << 52) + 1 // a*4096 overflows int64
-	}
+	c := []uint64{^uint64(0), 1 << 63, (1 << 52) + 1, 1 << 52, (1 << 52) + 2, (1 << 53) + 1, 3 << 52, (1 << 51) + 1, (1 << 63) + 1, 1 << 32, (1 << 52) + 3}
+	return c[oorTurn.Add(1)%uint64(len(c))]
 }
 
 func lenBytes(len string, r *rand.Rand) int {
